@@ -1,5 +1,5 @@
 (* C10 — the no-delete annotation protects a node from removal, not from tainting.  Theorems only. *)
-From Esc Require Import Examples proofs.ScanTheorems proofs.ScanRun proofs.ScanRunTheorems.
+From Esc Require Import Examples proofs.ScanTheorems proofs.ScanTaint proofs.ScanRun proofs.ScanRunTheorems.
 
 (* every removal call is about a node that carries no non-empty annotation, or is force-tainted *)
 Theorem c10_protected : forall now gdry api g a nodes pods, asg_named g a ->
@@ -53,3 +53,13 @@ Proof. vm_compute. reflexivity. Qed.
 Theorem c10_run_once : forall s, wf_groups s -> for_groups check_C10_group s (run_journals s) = true.
 Proof. exact run_passes_C10. Qed.
 Print Assumptions c10_run_once.
+
+(* "can be ... untainted like any other node": in every scan (distinct node names) that buys capacity, every protected
+   tainted node of the view had been looked up for untainting before the cloud request (C07's reuse rule, restricted to the
+   annotated nodes) *)
+Theorem c10_untainted_like_any_other : forall now gdry api g a nodes pods,
+  let x := ctx_of now gdry api g a nodes pods in
+  NoDup (map n_name (x_nodes x)) ->
+  check_C10_reuse x (r_calls (scan_of now gdry api g a nodes pods)) = true.
+Proof. exact group_passes_C10_reuse. Qed.
+Print Assumptions c10_untainted_like_any_other.
